@@ -109,6 +109,16 @@ def negotiate(ver, S):
     return r
 
 
+def is_v4_literal(nm):
+    """inet_pton(AF_INET): four decimal parts, each <= 255, no leading zero; the C string ends at a NUL"""
+    nm = nm.split("\0", 1)[0]
+    parts = nm.split(".")
+    if len(parts) != 4: return None
+    for x in parts:
+        if not (1 <= len(x) <= 3) or not x.isdigit() or int(x) > 255 or (len(x) > 1 and x[0] == "0"): return None
+    return nm
+
+
 def reply5(code, ip, port):
     return bytes([5, code, 0, 1]) + ipb(ip) + bytes([port >> 8, port & 255])
 
@@ -144,6 +154,7 @@ class Sock:
         self.accepted = False; self.accept_t = None; self.acceptor = None
         self.local = None
         self.reading = False              # a read (loop) was started on it
+        self.unfinished = b""             # bytes of a write that never completed: an unknown prefix of them was sent
 
 
 def parse(impl, scn):
@@ -189,7 +200,7 @@ def parse(impl, scn):
                 elif m == "connect" and len(args) >= 2:
                     s.connect_to = args[0]; s.connect_h = args[1]; pend[args[1]] = ("connect", s, None)
                 elif m == "send" and args:
-                    pend[args[0]] = ("send", s, unhex(k.get("data", "-")))
+                    pend[args[0]] = ("send", s, unhex(k.get("data", "-"))); s.unfinished = unhex(k.get("data", "-"))
                 elif m in ("write_loop", "write") and args:
                     pend[args[0]] = ("wloop", s, None)
                 elif m in ("read_loop", "read") and args:
@@ -222,7 +233,7 @@ def parse(impl, scn):
             if kind == "connect":
                 s.connected = (ec == "ok"); s.connect_t = int(k.get("t", 0)); del pend[h]
             elif kind == "send":
-                s.sent += extra[:n]; del pend[h]
+                s.sent += extra[:n]; s.unfinished = b""; del pend[h]
             elif kind == "wloop":
                 st = int(k.get("stream", 0)); off = int(k.get("off", 0))
                 s.sent += bytes(stream_byte(st, off + i) for i in range(n))
@@ -290,13 +301,20 @@ def _check(impl, scn):
     socks = T["socks"]
     clients = [s for s in socks.values() if s.connect_to == pxep and s.connected]
     others = [s for s in socks.values() if s not in clients]
+    assign = match_peers(T, ver, clients, others, listeners)
     expect_counts = [0, 0, 0]
     maybe_counts = [0, 0, 0]       # requests of clients that closed on a lossy path: what was still unacknowledged is lost
-    used_peers = set()
     nassoc = 0
     for c in sorted(clients, key=lambda s: (s.connect_t, s.name)):
         S = bytes(c.sent)
         g = negotiate(ver, S)
+        if c.unfinished:
+            # a write the peer never let finish: the proxy saw an unknown prefix of it. Unless that
+            # cannot matter for the negotiation, nothing is demanded of this connection
+            g2 = negotiate(ver, S + c.unfinished)
+            if (g2["status"], g2["cmd"], g2["req"], g2["prefix"]) != (g["status"], g["cmd"], g["req"], g["prefix"]) or g["status"] == "wait":
+                if g2["cmd"] in (1, 2, 3): maybe_counts[g2["cmd"] - 1] += 1
+                continue
         if g["cmd"] in (1, 2, 3):
             if c.closed and T["lossy"]: maybe_counts[g["cmd"] - 1] += 1
             else: expect_counts[g["cmd"] - 1] += 1
@@ -311,7 +329,7 @@ def _check(impl, scn):
             else:
                 try: nm = addr.decode("ascii")
                 except Exception: nm = None
-                if nm is not None and re.fullmatch(r"\d{1,3}(\.\d{1,3}){3}", nm): tgt = nm
+                if nm is not None and is_v4_literal(nm): tgt = is_v4_literal(nm)
                 elif nm in T["dns"] and T["dns"][nm][0] == "ok" and T["dns"][nm][1]: tgt = T["dns"][nm][1][0]
             if kind == "name" and tgt is None:
                 E += (reply5(4, "0.0.0.0", 0) if ver == 5 else bytes([ver & 255, 4, 0, 1, 0, 0, 0, 0, 0, 0])); must_close = True
@@ -322,18 +340,13 @@ def _check(impl, scn):
                     E += reply5(0, tgt, port) if ver != 4 else reply4(90, tgt, port)
                     complete_replies = len(E)
                     payload = S[g["used"]:]
-                    # the accepted socket whose bytes are this client's payload
-                    cands = [o for o in others if o.accepted and o.acceptor == listeners[tep] and o.name not in used_peers]
-                    best = None
-                    for o in sorted(cands, key=lambda s: s.accept_t):
-                        ok, got, _ = verify_chunks(o.rx, payload)
-                        if ok and (best is None or got > best[1]): best = (o, got)
-                        if ok and got > 0: break
-                    if best is None and cands and payload:
-                        fails.append(("relay", "%s: no connection accepted at %s received (a prefix of) the %d bytes the client sent after its request" % (c.name, tep, len(payload))))
+                    best = assign.get(c.name)
+                    cands = [o for o in others if o.accepted and o.acceptor == listeners[tep]]
+                    if best is None and cands and payload and not c.unfinished and not T["lossy"] and not c.closed:
+                        fails.append(("relay", "%s: no connection accepted at %s both received (a prefix of) the %d bytes the client sent after its request and sent what the client received" % (c.name, tep, len(payload))))
                     elif best is not None:
-                        relay_peer = best[0]; used_peers.add(relay_peer.name)
-                        if complete_ok(T, c, relay_peer) and best[1] != len(payload):
+                        relay_peer = best[0]
+                        if complete_ok(T, c, relay_peer) and not c.unfinished and best[1] != len(payload):
                             fails.append(("relay", "%s -> %s: %d of %d bytes arrived at the target although nobody closed" % (c.name, relay_peer.name, best[1], len(payload))))
                         peer_expect = bytes(relay_peer.sent)
                 else:
@@ -350,7 +363,7 @@ def _check(impl, scn):
                     bep = "%s:%d" % (pxip, port)
                     tp = [o for o in others if o.connect_to == bep and o.connected]
                     if tp:
-                        o = tp[0]; relay_peer = o; used_peers.add(o.name)
+                        o = tp[0]; relay_peer = o
                         if o.local and not T["nat"]:
                             lip, lport = o.local.rsplit(":", 1)
                             E += reply5(0, lip, int(lport)) if ver != 4 else reply4(90, lip, int(lport))
@@ -397,6 +410,48 @@ def _check(impl, scn):
     fails += udp_check(T, px, pxip)
     fails += udp_complete(T, px)
     return fails
+
+
+def connect_target(T, g):
+    """endpoint a well-formed CONNECT (or lookup-then-connect) request leads to, or None"""
+    if g["status"] != "request": return None
+    cmd, kind, addr, port = g["req"]
+    if not (cmd == 1 or (cmd == 3 and kind == "name")): return None
+    if kind == "ip": return "%s:%d" % (addr, port)
+    try: nm = addr.decode("ascii")
+    except Exception: return None
+    if is_v4_literal(nm): return "%s:%d" % (is_v4_literal(nm), port)
+    ent = T["dns"].get(nm)
+    if ent and ent[0] == "ok" and ent[1]: return "%s:%d" % (ent[1][0], port)
+    return None
+
+
+def match_peers(T, ver, clients, others, listeners):
+    """which accepted target socket carries which client's connection: what it received is (a
+    prefix of) the client's payload AND what the client received after the replies is (a prefix of)
+    what it sent. Pairs that exchanged most are fixed first (payload streams are all different);
+    connections that exchanged nothing are interchangeable."""
+    pairs = []
+    for c in clients:
+        S = bytes(c.sent)
+        g = negotiate(ver, S)
+        tep = connect_target(T, g)
+        if tep is None or tep not in listeners: continue
+        ip, port = tep.rsplit(":", 1)
+        E = bytes(g["prefix"]) + (reply5(0, ip, int(port)) if ver != 4 else reply4(90, ip, int(port)))
+        payload = S[g["used"]:]
+        for o in others:
+            if not (o.accepted and o.acceptor == listeners[tep]): continue
+            ok1, got1, _ = verify_chunks(o.rx, payload)
+            ok2, got2, _ = verify_chunks(c.rx, E + bytes(o.sent))
+            if ok1 and ok2:
+                pairs.append((-(got1 + max(0, got2 - len(E))), o.accept_t or 0, c.connect_t or 0, c.name, o, got1, got2))
+    pairs.sort(key=lambda x: x[:4])
+    assign = {}; used = set()
+    for (_, _, _, cn, o, got1, got2) in pairs:
+        if cn in assign or o.name in used: continue
+        assign[cn] = (o, got1, got2); used.add(o.name)
+    return assign
 
 
 def complete_ok(T, a, b):
